@@ -440,7 +440,17 @@ def r10_limit_only_compared(ctx):
               (bad[0][0], bad[0][1]) if bad else None)
 
 
-RULES = [("C11.R10", r10_limit_only_compared), ("C11.R9", r9_refusal_cannot_panic), ("C11.R8", r8_declared_limit_is_stored), ("C11.R7", r7_frame_errors_are_errors), ("C11.R1", r1_cap_before_delivery), ("C11.R2", r2_refusal_final), ("C11.R3", r3_cap_provenance), ("C11.R4", r4_effective_limit), ("C11.R5", r5_who_reads_body), ("C11.R6", r6_only_counted_bytes_refuse)]
+def r11_buffered_body_is_the_whole_stream(ctx):
+    """`a body of at most that many bytes is accepted and delivered intact however it is framed or chunked`: the buffering helper behind
+    UntypedBody / TypedBody appends every frame of the capped stream, whole and in order, and returns the buffer only when the stream has
+    ended.  These are the accumulation clauses of C09.R1, re-evaluated here (adversary change C11-K: the helper read only two frames)."""
+    from . import c09
+    R = ctx.rule("C11.R11", "into_bytes_mut returns the concatenation of every frame of the capped stream: one append site fed by each pulled frame whole, a buffer that starts empty, "
+                 "and no return between an append and the next pull (or a try_fold over the stream)", floor=4)
+    c09._accumulation(ctx, R)
+
+
+RULES = [("C11.R11", r11_buffered_body_is_the_whole_stream), ("C11.R10", r10_limit_only_compared), ("C11.R9", r9_refusal_cannot_panic), ("C11.R8", r8_declared_limit_is_stored), ("C11.R7", r7_frame_errors_are_errors), ("C11.R1", r1_cap_before_delivery), ("C11.R2", r2_refusal_final), ("C11.R3", r3_cap_provenance), ("C11.R4", r4_effective_limit), ("C11.R5", r5_who_reads_body), ("C11.R6", r6_only_counted_bytes_refuse)]
 
 SELFTEST = [
     {"name": "ge-for-gt", "kind": "mutant", "edits": [("dropshot/src/extractor/body.rs", "if bytes_read + len > self.cap {", "if bytes_read + len >= self.cap {")], "expect": ["C11.R1"],
